@@ -25,7 +25,7 @@ Proof.
   - (* MAlloc *)
     destruct (link c (norm_obj k0 ns nw)) as [c1 i] eqn:EL.
     destruct (norm_obj_props k0 ns nw) as [P1 [P2 [P3 [P4 P5]]]].
-    destruct (inv_link c (norm_obj k0 ns nw) I P1 P2 P3 P4 P5) as [I1 OK1].
+    destruct (inv_link c (norm_obj k0 ns nw) I P1 P2 (fun t H => False_ind _ (P3 t H)) (fun t H => False_ind _ (P4 t H)) P5) as [I1 OK1].
     rewrite EL in I1, OK1. cbn [fst snd] in I1, OK1.
     inversion E; subst. cbn [actx]. split.
     + apply inv_set_rg; auto. intros t Ht. inversion Ht; subst. auto.
@@ -336,4 +336,17 @@ Proof.
     inversion E; subst. cbn [actx]. split; [|apply stable_set_wrg]. apply inv_set_wrg; auto. intros t Ht; discriminate.
   - (* MPtrEq *)
     destruct (rg c r1), (rg c r2); inversion E; subst; split; auto using stable_refl.
+  - (* MAllocWith *)
+    match type of E with context [init_obj ?kk ?ss ?ww] => destruct (init_obj kk ss ww) as [o|] eqn:IO end; [|keep_case E].
+    destruct (init_obj_props _ _ _ _ IO) as [P1 [P2 [P3 [_ [_ [P4 P5]]]]]].
+    destruct (link c o) as [c1 i] eqn:EL.
+    assert (HS : forall t, In (Some t) (strong o) -> ok_strong c t).
+    { intros t Ht. apply P4, in_map_rg in Ht. destruct Ht as [r' Hr]. eapply rg_ok; eauto. }
+    assert (HW : forall t, In (Some t) (weak o) -> ok_weak c t).
+    { intros t Ht. apply P5, in_map_wrg in Ht. destruct Ht as [r' Hr]. eapply wrg_ok; eauto. }
+    destruct (inv_link c o I P1 P2 HS HW ltac:(intros N; rewrite P3 in N; discriminate)) as [I1 OK1].
+    rewrite EL in I1, OK1. cbn [fst snd] in I1, OK1.
+    inversion E; subst. cbn [actx]. split.
+    + apply inv_set_rg; auto. intros t Ht. inversion Ht; subst. auto.
+    + assert (c1 = fst (link c o)) by (rewrite EL; reflexivity). subst c1. split; reflexivity.
 Qed.
